@@ -1,6 +1,6 @@
 (* C06 property theorems. Statements closed by `exact lemma`, followed by Print Assumptions. *)
 From Coq Require Import ZArith NArith List Bool String Lia.
-From OG Require Import C06.Model C06.Proofs C06.ProofsInt C06.ProofsDec C06.ProofsRender.
+From OG Require Import C06.Model C06.ModelStream C06.Proofs C06.ProofsInt C06.ProofsDec C06.ProofsRender C06.ProofsStream.
 Import ListNotations.
 Open Scope Z_scope.
 
@@ -62,6 +62,85 @@ Theorem C06_timestamp_scaled_exactly : forall mult r r',
   end.
 Proof. exact scale_row_repaired_exact. Qed.
 Print Assumptions C06_timestamp_scaled_exactly.
+
+(* ------------------------------------------------------------------------------------------------ *)
+(* the body framing between the socket and the parser (ModelStream: ReadLinesBlockExt, truncateReader, the read loop of
+   serveWrite).  Every statement is for EVERY schedule of buffer capacities, every max-line-size, every body. *)
+
+(* the block reader: when it ends without an error, the data lines (non-empty lines) of the blocks it delivered, in
+   order, are exactly the data lines of the body - nothing lost, nothing twice, nothing cut ... *)
+Theorem C06_blocks_deliver_every_line : forall e maxline sched body bl,
+  read_blocks e maxline sched [] body = (bl, true) ->
+  flat_map dlines (map fst bl) = dlines body.
+Proof. intros e maxline sched body bl. exact (read_blocks_complete e maxline sched [] body bl). Qed.
+Print Assumptions C06_blocks_deliver_every_line.
+
+(* ... hence, in every configuration of the parser, the rows of the blocks are the rows of the body ... *)
+Theorem C06_blocks_rows_are_body_rows : forall d c e maxline sched body bl,
+  read_blocks e maxline sched [] body = (bl, true) ->
+  flat_map (fun b => fst (parse_batch d c b)) (map fst bl) = fst (parse_batch d c body).
+Proof. exact read_blocks_rows. Qed.
+Print Assumptions C06_blocks_rows_are_body_rows.
+
+(* ... and however the loop ends, blocks are cut at newlines of the body only: the blocks joined by newlines are a
+   prefix of the body, or (regular end) the last block is the rest of the body *)
+Theorem C06_blocks_cut_only_at_newlines : forall e maxline sched body bl ok,
+  read_blocks e maxline sched [] body = (bl, ok) ->
+  (exists Y, body = join_nl (map fst bl) ++ Y) \/
+  (e = EndEOF /\ exists bl' b cap, bl = bl' ++ [(b, cap)] /\ body = join_nl (map fst bl') ++ b).
+Proof. intros e maxline sched body bl ok. exact (read_blocks_join e maxline sched [] body bl ok). Qed.
+Print Assumptions C06_blocks_cut_only_at_newlines.
+
+(* the write endpoint: an acknowledged request stored exactly what accepting its whole body as one block stores (every
+   line, with the value its text denotes by C06_accepted_means_written), and its body was within max-body-size *)
+Theorem C06_acknowledged_write_stores_every_line : forall d limit declared gz maxline sched mult body stored,
+  serve_write d cfg_repaired limit declared gz maxline sched mult body = (WAck, stored) ->
+  accept_block d cfg_repaired mult body = Ok stored /\
+  match stream_limit limit gz with Some n => (List.length body <= n)%nat | None => True end.
+Proof. intros d limit declared gz maxline sched mult. exact (serve_write_ack d cfg_repaired eq_refl mult limit declared gz maxline sched). Qed.
+Print Assumptions C06_acknowledged_write_stores_every_line.
+
+(* conversely, the answer does not depend on how the body is cut into blocks: a body within the limits that the reader
+   gets through and that is acceptable as one block is acknowledged with exactly those rows *)
+Theorem C06_acceptable_body_acknowledged : forall d limit declared gz maxline sched mult body bl rows,
+  match limit, declared with Some n, Some dd => (n <? dd)%nat | _, _ => false end = false ->
+  match stream_limit limit gz with Some n => (List.length body <= n)%nat | None => True end ->
+  read_blocks EndEOF maxline sched [] body = (bl, true) ->
+  accept_block d cfg_repaired mult body = Ok rows ->
+  serve_write d cfg_repaired limit declared gz maxline sched mult body = (WAck, rows).
+Proof. intros d limit declared gz maxline sched mult. exact (serve_write_complete d cfg_repaired eq_refl mult limit declared gz maxline sched). Qed.
+Print Assumptions C06_acceptable_body_acknowledged.
+
+(* a streamed body (no usable Content-Length) longer than max-body-size is never acknowledged *)
+Theorem C06_oversized_stream_refused : forall d n declared maxline sched mult body,
+  (n < List.length body)%nat ->
+  fst (serve_write d cfg_repaired (Some n) declared false maxline sched mult body) = WRefused.
+Proof. intros d n declared maxline sched mult. exact (serve_write_oversized d cfg_repaired mult n declared maxline sched). Qed.
+Print Assumptions C06_oversized_stream_refused.
+
+(* whatever the answer: the data lines of the body fall into consecutive groups and a dropped remainder, and what is
+   stored is, group by group, everything the group's lines denote or nothing - never a part of a line, never a row
+   that is not the row of a complete line of the body *)
+Theorem C06_write_stores_whole_lines_only : forall d limit declared gz maxline sched mult body st stored,
+  serve_write d cfg_repaired limit declared gz maxline sched mult body = (st, stored) ->
+  exists groups dropped,
+    dlines body = List.concat groups ++ dropped /\ stored = flat_map (group_rows d cfg_repaired mult) groups.
+Proof. intros d limit declared gz maxline sched mult. exact (serve_write_stores_whole_lines d cfg_repaired eq_refl mult limit declared gz maxline sched). Qed.
+Print Assumptions C06_write_stores_whole_lines_only.
+
+(* non-vacuity: a body of three lines read with 16-byte buffers arrives in three blocks and is acknowledged with its
+   three rows; the same body against max-body-size 20 is refused and leaves the rows of its first block only *)
+Example C06_example_stream :
+  let body := bs "m x=1i 1" ++ [c_nl] ++ bs "m x=2i 2" ++ [c_nl] ++ bs "m x=3i 3" in
+  let sched := repeat ([16; 32; 64]%nat, false) 6 in
+  map fst (fst (read_blocks EndEOF 1000 sched [] body)) = [bs "m x=1i 1"; bs "m x=2i 2"; bs "m x=3i 3"] /\
+  snd (read_blocks EndEOF 1000 sched [] body) = true /\
+  fst (serve_write dec2f_exact cfg_repaired (Some 100%nat) None false 1000 sched 1 body) = WAck /\
+  List.length (snd (serve_write dec2f_exact cfg_repaired (Some 100%nat) None false 1000 sched 1 body)) = 3%nat /\
+  fst (serve_write dec2f_exact cfg_repaired (Some 20%nat) None false 1000 sched 1 body) = WRefused /\
+  List.length (snd (serve_write dec2f_exact cfg_repaired (Some 20%nat) None false 1000 sched 1 body)) = 1%nat /\
+  serve_write dec2f_exact cfg_repaired (Some 20%nat) (Some 26%nat) false 1000 sched 1 body = (WRefused, []).
+Proof. vm_compute. repeat split. Qed.
 
 (* int_exact_iff: the int64 -> float64 -> int64 passage today's code applies to every integer field returns the
    integer written iff it is a 53-bit mantissa times a power of two (so: every |n| <= 2^53, and beyond that only the
